@@ -16,7 +16,7 @@ Local Open Scope Q_scope.
 Lemma paint_nth : forall N ws i, (i < Z.to_nat N)%nat ->
   nth i (paint N ws) false = existsb (in_window (Z.of_nat i)) ws.
 Proof.
-  intros N ws i Hi. unfold paint.
+  intros N ws i Hi. rewrite paint_unfold.
   set (F := fun k0 : nat => existsb (in_window (Z.of_nat k0)) ws).
   rewrite (nth_indep _ false (F 0%nat)) by (rewrite map_length, seq_length; lia).
   rewrite map_nth. rewrite seq_nth by lia. reflexivity.
